@@ -31,8 +31,11 @@ Findings on the unchanged tree (families computed by `_family` from the failing 
   get-parent-map-null-dropped: RemoteRepository.get_parent_map([... b"null:" ...]) loses the
     null: entry whenever another key is requested as well (dead `found_parents` in
     _get_parent_map_rpc); modelled by `fx` (the harness probes the variant).
-  generate-revision-history-of-absent-tip: after set_last_revision_info(n, X) with X absent from the
-    repository, generate_revision_history(X) succeeds locally and is NoSuchRevision remotely.
+  tip-absent-from-repository-<op>: after set_last_revision_info(n, X) with X absent from the repository
+    (unchecked on both sides) reads / generate_revision_history answer with different results or error classes.
+  gather-stats-null-revision-committers: gather_stats(b"null:", committers=True) lacks 'committers' remotely.
+  config-old-api-empty-value-get: get_config().set_user_option(name, "") then get_config_stack().get(name)
+    is None locally and "" through the server.
 Error classes are compared modulo EQUIV_ERRORS (the server verb documents that it reports an absent
 revision as NoSuchRevision where the local code raises GhostRevisionsHaveNoRevno).
 
@@ -64,6 +67,8 @@ ASSUMPTIONS = [
     "the server is breezy's own SmartTCPServer run in a thread of the same process (127.0.0.1, protocol v3)",
     "revision ids, file ids, timestamps and committers are chosen by the script so that both sides can be compared byte for byte",
     "error classes are compared modulo GhostRevisionsHaveNoRevno == NoSuchRevision (documented translation of the server verb)",
+    "parent locations set by the scripts are relative paths inside the served tree or non-file URLs: a parent stored "
+    "relative to the branch resolves differently, by design, under file:// and under the server's bzr:// root",
     "model hypotheses: revision ids on the get_parent_map wire are non-empty, contain no blank / newline and do not start with 'missing:'",
 ]
 TRUSTED = [
@@ -623,7 +628,7 @@ def gen_script(rng, length):
         elif x < 0.98:
             ops.append(("missing_revs", somerev(0.05), [somerev(0.1) for _ in range(rng.randint(0, 2))]))
         else:
-            ops.append(("set_parent", rng.choice(["../A", "file:///nowhere/x", "bzr://example.com/b", "../café"])))
+            ops.append(("set_parent", rng.choice(["../A", "http://example.com/p", "bzr://example.com/b", "../café"])))
     return ops
 
 
@@ -882,10 +887,16 @@ def _family(script, i, what, l, r, before=None):
         # repository; reads / history generation on that state answer with different results or error classes
         return "tip-absent-from-repository-" + op[0]
     if (op[0] == "stats" and what == "result" and isinstance(l, dict) and isinstance(r, dict)
-            and l.get("committers") == 0 and "committers" not in r and l.get("revisions") == 0):
+            and l.get("committers") == 0 and "committers" not in r
+            and {k: v for k, v in l.items() if k != "committers"} == r):
         # gather_stats(b"null:", committers=True): the null revision travels as b"" -> None and the server
         # then leaves out the committers count
         return "gather-stats-null-revision-committers"
+    if (op[0] == "conf_get" and what == "result" and l is None and r == ""
+            and any(o[0] == "conf_set_old" and o[1] == op[1] and o[2] == "" for o in script[:i])):
+        # get_config().set_user_option(name, "") followed by get_config_stack().get(name):
+        # None locally, "" through the smart server
+        return "config-old-api-empty-value-get"
     return None
 
 
@@ -935,9 +946,9 @@ def run(ctx):
     finally:
         srv.stop()
     ctx.extra["get_parent_map_variant"] = "null: kept (fixed)" if fx else "null: dropped (as found)"
-    items = [("general", gen_script(ctx.rng, ctx.rng.randint(6, 20))) for _ in range(ctx.pick(24, 300))]
-    items += [("modelled", gen_model_script(ctx.rng, ctx.rng.randint(8, 20))) for _ in range(ctx.pick(24, 300))]
-    nproc = 6
+    items = [("general", gen_script(ctx.rng, ctx.rng.randint(6, 20))) for _ in range(ctx.pick(16, 300))]
+    items += [("modelled", gen_model_script(ctx.rng, ctx.rng.randint(8, 20))) for _ in range(ctx.pick(16, 300))]
+    nproc = 8
     chunks = [(fx, items[i::nproc]) for i in range(nproc)]
     for cases, counts, viols, mism, traces in ctx.pmap(_worker, [c for c in chunks if c[1]], procs=nproc, chunksize=1):
         for case, nt in cases:
